@@ -1649,3 +1649,38 @@ M.contract(P_DP + ':build_document', params=dict(raw_doc=RAW_DOC3),
                'same-elements-in-the-same-order': lambda raw_doc, result:
                all(same_items(result.section_2_elements[k].elements, raw_doc[k]) for k in raw_doc.keys()),
            }, raises_only=())
+
+
+# ---- the configuration of the test-case parser (finite facts, read from the program)
+
+@M.check('configuration of the test-case parser')
+def _test_case_parser_configuration(ctx):
+    from exactly_lib.processing.parse import test_case_parser, file_inclusion_directive_parser
+    from exactly_lib.processing.instruction_setup import TestCaseParsingSetup, InstructionsSetup
+    from exactly_lib.section_document.element_parsers import optional_description_and_instruction_parser as odi
+
+    act_parser = object()
+    setup = TestCaseParsingSetup(lambda s: s, InstructionsSetup(), act_parser)
+    parser = test_case_parser.new_parser(setup)
+    conf = parser._Parser__section_document_parser._configuration
+    ctx.obligation('the sections are the phases, in phase order',
+                   tuple(conf.section2parser.keys()) == SECTION_NAMES, 'enumeration',
+                   detail={'sections': list(conf.section2parser.keys())})
+    ctx.obligation('before any header: the act phase',
+                   phase_identifier.DEFAULT_PHASE is phase_identifier.ACT
+                   and conf.default_section_name == phase_identifier.ACT.section_name, 'enumeration',
+                   detail={'default': conf.default_section_name})
+    ctx.obligation('the act phase is read by the act phase parser of the setup',
+                   conf.section2parser[phase_identifier.ACT.section_name] is act_parser, 'enumeration')
+    for name in SECTION_NAMES:
+        if name == phase_identifier.ACT.section_name:
+            continue
+        p = conf.section2parser[name]
+        kinds = [type(x) for x in getattr(p, '_parsers_to_try', [])]
+        ctx.obligation('phase %s: comments/blank lines, then including directives, then instructions (with optional '
+                       'description)' % name,
+                       isinstance(p, sep.ParserFromSequenceOfParsers)
+                       and kinds == [sep.StandardSyntaxCommentAndEmptyLineParser,
+                                     file_inclusion_directive_parser.FileInclusionDirectiveParser,
+                                     odi.InstructionWithOptionalDescriptionParser], 'enumeration',
+                       detail={'parsers': [k.__name__ for k in kinds]})
